@@ -98,7 +98,7 @@ pub async fn start(world: Arc<World>, script: HashMap<String, Vec<Outcome>>, def
                                 "http",
                                 json!({
                                     "sub": parsed.get("subscription").and_then(|s| s.as_str()).unwrap_or(""),
-                                    "m": split_id(&mid), "same_id": mid == mid2, "b64ok": data.is_some(),
+                                    "m": split_id(&mid), "raw": mid, "same_id": mid == mid2, "b64ok": data.is_some(),
                                     "data": data.as_ref().map(|d| digest(d)).unwrap_or_default(),
                                     // a delayed answer is pending until it is sent (`httpans`)
                                     "attrs": attrs_list(&attrs), "attempt": k,
@@ -113,7 +113,7 @@ pub async fn start(world: Arc<World>, script: HashMap<String, Vec<Outcome>>, def
                                     "httpans",
                                     json!({
                                         "sub": parsed.get("subscription").and_then(|s| s.as_str()).unwrap_or(""),
-                                        "m": split_id(&mid), "attempt": k, "code": code,
+                                        "m": split_id(&mid), "raw": mid, "attempt": k, "code": code,
                                     }),
                                 );
                             }
